@@ -190,8 +190,8 @@ class G:
     def hist_step(self, x, keys):
         r = self.r
         op = r.choices(["add", "cadd", "addint", "addmany", "rem", "crem", "addr", "remr", "flip", "clear", "opt",
-                        "cloneswap", "detach", "setcow", "query", "walk4096", "fillempty"],
-                       [10, 8, 2, 4, 8, 8, 8, 8, 8, 0.3, 2, 1, 1, 1, 6, 2.5, 1])[0]
+                        "cloneswap", "detach", "setcow", "query", "walk4096", "fillempty", "emptyedge"],
+                       [10, 8, 2, 4, 8, 8, 8, 8, 8, 0.3, 2, 1, 1, 1, 6, 2.5, 1, 2.5])[0]
         self.count("histop:" + op)
         if op in ("add", "cadd", "addint", "rem", "crem"):
             self.emit("%s %s %d" % (op, x, self.val_near(keys)))
@@ -252,6 +252,40 @@ class G:
                 self.emit("%s %s %d" % (r.choice(["crem", "rem"]) if down == "mixed" else down, x, v))
             self.emit("card %s" % x)
             self.emit("wf %s" % x)
+        elif op == "emptyedge":
+            # empty a chunk through the PARTIAL first / last chunk path of a multi-chunk range operation:
+            # the chunk's content [a,b) is known, the range starts (ends) strictly inside the chunk and covers all of it
+            k = r.choice([q for q in keys if 0 < q < 65535] or [5])
+            base = k * CH
+            a = r.choice([1, 7, 100, 4096, 60000])
+            b = min(CH - 1, a + r.choice([1, 2, 50, 5000]))
+            self.emit("remr %s %d %d" % (x, base, base + CH))
+            if r.random() < 0.5:
+                self.emit("addr %s %d %d" % (x, base + a, base + b))
+            else:
+                self.emit("addmany %s %s" % (x, " ".join(str(base + v) for v in sorted(set([a, b - 1] + [r.randrange(a, b) for _ in range(5)])))))
+            if r.random() < 0.4:
+                self.emit("opt %s" % x)
+            side = r.choice(["last", "last", "first"])
+            mut = r.choice(["remr", "remr", "flip"])
+            if side == "last":
+                s0 = (k - 1) * CH + r.choice([0, 1, 30000, 65535]) - r.choice([0, 0, CH])
+                e0 = base + b + r.choice([0, 0, 1, 10])
+            else:
+                s0 = base + r.choice([a, a, max(1, a - 1), 1])
+                e0 = (k + 1) * CH + r.choice([1, 5, 65535, CH, CH + 7])
+            s0 = max(0, s0)
+            e0 = min(U32, e0)
+            if mut == "flip":
+                # make the rest of the flipped range present first so that flipping removes it as well
+                self.emit("addr %s %d %d" % (x, s0, base + a))
+                if side == "first":
+                    self.emit("addr %s %d %d" % (x, base + b, e0))
+            self.emit("%s %s %d %d" % (mut, x, s0, e0))
+            self.emit("wf %s" % x)
+            self.emit("card %s" % x)
+            self.emit("empty %s" % x)
+            self.count("emptyedge:%s:%s" % (side, mut))
         elif op == "fillempty":
             k = r.choice(list(keys)) if keys else 0
             base = k * CH
